@@ -365,6 +365,12 @@ func TestHandler(t *testing.T) {
 			if std && !direct {
 				wantEmit = wantEnabled
 			}
+			if direct && std && !wantEnabled && len(writes) == 0 {
+				// a record handed to Handle without asking Enabled first did not come "through a log/slog.Logger": whether
+				// the handler drops what the level refuses or writes it is not stated
+				labels["direct-handle-of-a-refused-level-dropped"] = true
+				goto classify
+			}
 			switch {
 			case wantEmit && len(writes) != 1:
 				sig := "C15/emit"
